@@ -24,7 +24,8 @@
  *     byte_buffer_null'ed, and in use with every (used, offset) geometry over
  *     other memory or over the very memory now offered.  A refused set-up must
  *     leave both memory blocks unchanged and the descriptor either unchanged or
- *     describing no memory (refused_descriptor_ok);
+ *     consistent and describing no memory or exactly the offered block
+ *     (refused_descriptor_ok);
  *     an accepted one must describe exactly what was asked for, and every
  *     operation of the alphabet is then run once on the re-used descriptor
  *     against the model of a fresh one (differential oracle).
@@ -644,16 +645,22 @@ explore(size_t size)
 /* The descriptor after a refused set-up.  "Set-up refuses null memory, zero
  * size, used > size or offset > used": the statement does not say "without
  * change" here (it does for add and consume).  Admissible: the descriptor as
- * it was, or a consistent descriptor that describes no memory (data == NULL
- * or size == 0, with offset <= used <= size).  A descriptor that was changed
- * and still describes memory -- or whose marks are out of order -- would let
- * the next operation work on a state nobody asked for. */
+ * it was, or a consistent descriptor (offset <= used <= size) that describes
+ * no memory (data == NULL or size == 0) or exactly the offered (data, size)
+ * pair -- the caller vouched for that block, any marks in order inside it
+ * keep every later operation inside memory the caller handed over.  A
+ * descriptor whose marks are out of order, or that describes memory nobody
+ * offered in this call, would let the next operation work outside it. */
 static bool
-refused_descriptor_ok(const ByteBuffer *b, const ByteBuffer *before)
+refused_descriptor_ok(const ByteBuffer *b, const ByteBuffer *before, const void *odata, size_t osize)
 {
     if (b->data == before->data && b->size == before->size && b->used == before->used && b->offset == before->offset)
         return true;
-    return (b->data == NULL || b->size == 0) && b->offset <= b->used && b->used <= b->size;
+    if (!(b->offset <= b->used && b->used <= b->size))
+        return false;
+    /* describes no memory, or exactly the memory block the caller offered
+     * (bad marks on good memory: the block is taken, the marks are not) */
+    return b->data == NULL || b->size == 0 || (b->data == (const unsigned char *)odata && b->size == osize);
 }
 
 /* Set-up matrix on a descriptor holding arbitrary values */
@@ -687,9 +694,9 @@ setup_matrix(size_t S)
                             mc_fail("C18/setup-accepts-valid", "fields not set");
                     } else if (rc >= 0) {
                         mc_fail("C18/setup-refuses", "accepted rc=%d", rc);
-                    } else if (!refused_descriptor_ok(&b, &before)) {
+                    } else if (!refused_descriptor_ok(&b, &before, dnull ? NULL : mem, size)) {
                         mc_fail("C18/refusal-unchanged",
-                                "refused set-up left a changed descriptor that still describes memory: data %s, size=%zu used=%zu offset=%zu",
+                                "refused set-up left a changed descriptor with marks out of order or describing memory that was not offered: data %s, size=%zu used=%zu offset=%zu",
                                 b.data == NULL ? "NULL" : "set", b.size, b.used, b.offset);
                     } else if (memcmp(mem, mem0, S) != 0) {
                         mc_fail("C18/refusal-unchanged", "refused set-up changed buffer memory");
@@ -716,9 +723,9 @@ setup_matrix(size_t S)
                                 which ? "space" : "use", rc, b.used, b.offset);
                 } else if (rc >= 0) {
                     mc_fail("C18/setup-refuses", "%s accepted rc=%d", which ? "space" : "use", rc);
-                } else if (!refused_descriptor_ok(&b, &before)) {
+                } else if (!refused_descriptor_ok(&b, &before, dnull ? NULL : mem, size)) {
                     mc_fail("C18/refusal-unchanged",
-                            "refused set-up left a changed descriptor that still describes memory: data %s, size=%zu used=%zu offset=%zu",
+                            "refused set-up left a changed descriptor with marks out of order or describing memory that was not offered: data %s, size=%zu used=%zu offset=%zu",
                             b.data == NULL ? "NULL" : "set", b.size, b.used, b.offset);
                 } else if (memcmp(mem, mem0, S) != 0) {
                     mc_fail("C18/refusal-unchanged", "refused set-up changed buffer memory");
@@ -814,9 +821,9 @@ reuse_case(size_t S, int pk, size_t pu, size_t po, int which, int dk, size_t t, 
     if (!valid) {
         if (rc >= 0)
             mc_fail("C18/setup-refuses", "accepted rc=%d", rc);
-        else if (!refused_descriptor_ok(&b, &before))
+        else if (!refused_descriptor_ok(&b, &before, data, t))
             mc_fail("C18/refusal-unchanged",
-                    "refused set-up left a changed descriptor that still describes memory: data %s, size %zu -> %zu, used %zu -> %zu, offset %zu -> %zu",
+                    "refused set-up left a changed descriptor with marks out of order or describing memory that was not offered: data %s, size %zu -> %zu, used %zu -> %zu, offset %zu -> %zu",
                     b.data == before.data ? "same" : b.data == NULL ? "NULL" : "changed", before.size, b.size,
                     before.used, b.used, before.offset, b.offset);
         else if (memcmp(pmem, p0, S) != 0 || memcmp(tmem, t0, tn) != 0)
@@ -1190,9 +1197,9 @@ medium_family(void)
                              * family, not a violation.  What the refusal leaves behind is
                              * checked like any refused set-up.  (Refusals at the small-scope
                              * sizes stay violations: parts A, R, X, J.) */
-                            if (!refused_descriptor_ok(&b, &zeroed))
+                            if (!refused_descriptor_ok(&b, &zeroed, mem, S))
                                 mc_fail("C18/refusal-unchanged",
-                                        "refused set-up left a changed descriptor that still describes memory: size=%zu used=%zu offset=%zu",
+                                        "refused set-up left a changed descriptor with marks out of order or describing memory that was not offered: size=%zu used=%zu offset=%zu",
                                         b.size, b.used, b.offset);
                             else if (memcmp(mem, img, S) != 0)
                                 mc_fail("C18/refusal-unchanged", "refused set-up changed buffer memory");
@@ -1410,9 +1417,9 @@ big_family(void)
                          * that does not take buffers of 2^31 octets and more refuses
                          * them here -- a cap of this family, not a violation */
                         size_t badp = 0;
-                        if (!refused_descriptor_ok(&b, &zeroed))
+                        if (!refused_descriptor_ok(&b, &zeroed, bigmap, S))
                             mc_fail("C18/refusal-unchanged",
-                                    "refused set-up left a changed descriptor that still describes memory: size=%#zx used=%#zx offset=%#zx",
+                                    "refused set-up left a changed descriptor with marks out of order or describing memory that was not offered: size=%#zx used=%#zx offset=%#zx",
                                     b.size, b.used, b.offset);
                         else if (!hot_filled_kept(S, &badp))
                             mc_fail("C18/refusal-unchanged", "refused set-up changed octet %#zx", badp);
@@ -1656,9 +1663,9 @@ big_family(void)
                              * the quantifier's): a cap, not a violation; what a refused
                              * set-up may leave behind is demanded all the same */
                             unsupported = true;
-                            if (!refused_descriptor_ok(&b, &before))
+                            if (!refused_descriptor_ok(&b, &before, data, S))
                                 mc_fail("C18/refusal-unchanged",
-                                        "refused set-up left a changed descriptor that still describes memory: size=%#zx used=%#zx offset=%#zx",
+                                        "refused set-up left a changed descriptor with marks out of order or describing memory that was not offered: size=%#zx used=%#zx offset=%#zx",
                                         b.size, b.used, b.offset);
                             else if (!hot_check(S, 0, true, BX_SAME, 0, 0, NULL, &bad))
                                 mc_fail("C18/refusal-unchanged", "refused set-up changed octet %#zx", bad);
@@ -1675,9 +1682,9 @@ big_family(void)
                                 mc_fail("C18/setup-accepts-valid", "set-up changed octet %#zx", bad);
                         } else if (rc >= 0) {
                             mc_fail("C18/setup-refuses", "accepted rc=%d", rc);
-                        } else if (!refused_descriptor_ok(&b, &before)) {
+                        } else if (!refused_descriptor_ok(&b, &before, data, S)) {
                             mc_fail("C18/refusal-unchanged",
-                                    "refused set-up left a changed descriptor that still describes memory: data %s, size %#zx -> %#zx, used %#zx -> %#zx, offset %#zx -> %#zx",
+                                    "refused set-up left a changed descriptor with marks out of order or describing memory that was not offered: data %s, size %#zx -> %#zx, used %#zx -> %#zx, offset %#zx -> %#zx",
                                     b.data == before.data ? "same" : b.data == NULL ? "NULL" : "changed", before.size,
                                     b.size, before.used, b.used, before.offset, b.offset);
                         } else if (!hot_check(S, 0, true, BX_SAME, 0, 0, NULL, &bad)) {
@@ -1711,6 +1718,7 @@ big_family(void)
  * pre-filled.  Rewind at this scale is not run (a memmove between aliased
  * positions has no order-independent result). */
 #include <sys/syscall.h>
+#include <time.h>
 
 #define TILE ((size_t)1 << 22)
 #define HUGE_SPAN (((size_t)1 << 32) + 2 * TILE)
@@ -1773,6 +1781,51 @@ tile_pattern(size_t i, unsigned salt)
     return (c == 0x00 || c == 0xee) ? (unsigned char)(0x55 + salt) : c;
 }
 
+/* How long would one operation over 2^32 octets take with this implementation,
+ * now, on this machine?  add, clear and consume of 64 MiB on the tiled ranges,
+ * the slowest of them extrapolated.  The statement sets no speed: a correct
+ * implementation that moves octets one by one must not be reported as a hang,
+ * so a family that does not fit its time budget is a cap.  The clock only
+ * decides whether the family is run; it is never printed.  Not consulted in a
+ * replay (the replayed case did run to its end in the run that recorded it). */
+#define HUGE_PROBE ((size_t)64 << 20)
+static double
+huge_probe_seconds(void)
+{
+    static double est = -1.0;
+    if (est >= 0.0)
+        return est;
+    est = 0.0;
+    ByteBuffer b;
+    memset(&b, 0, sizeof b);
+    if (byte_buffer_set(&b, huge_buf.virt, HUGE_PROBE, 0, 0) < 0)
+        return est;
+    /* three rounds, the fastest of each operation counts (the first round also
+     * pays for the page tables of the tiled ranges; other processes disturb) */
+    double best[3] = { 1e9, 1e9, 1e9 };
+    for (int round = 0; round < 3; ++round)
+        for (int k = 0; k < 3; ++k) {
+            struct timespec t0, t1;
+            clock_gettime(CLOCK_MONOTONIC, &t0);
+            if (k == 0)
+                (void)byte_buffer_add(&b, huge_src.virt, HUGE_PROBE);
+            else if (k == 1)
+                (void)byte_buffer_consume(&b, huge_dst.virt, HUGE_PROBE);
+            else
+                byte_buffer_clear(&b);
+            clock_gettime(CLOCK_MONOTONIC, &t1);
+            const double dt = (double)(t1.tv_sec - t0.tv_sec) + 1e-9 * (double)(t1.tv_nsec - t0.tv_nsec);
+            if (dt < best[k])
+                best[k] = dt;
+        }
+    for (int k = 0; k < 3; ++k) {
+        const double e = best[k] * (double)(((size_t)1 << 32) + 2 * TILE) / (double)HUGE_PROBE;
+        if (e > est)
+            est = e;
+    }
+    return est;
+}
+
 static void
 huge_family(void)
 {
@@ -1781,7 +1834,7 @@ huge_family(void)
     const size_t rq[] = { 4097 }, rt[] = { 1, 4097, TILE - 1 };
     const size_t *rs = mc_thorough() ? rt : rq;
     const int nr = mc_thorough() ? 3 : 1;
-    bool said = false, said_unsupported = false;
+    bool said = false, said_unsupported = false, said_slow = false;
     for (int ri = 0; ri < nr; ++ri)
         for (int kind = 0; kind < 5; ++kind) {
             const size_t S = B32 + rs[ri];
@@ -1800,6 +1853,16 @@ huge_family(void)
                 mc_end(false, "huge-unmapped");
                 continue;
             }
+            /* one call over 4 GiB: the case states its own budget; an implementation
+             * too slow for it even so is not run at this scale (cap, never `hang`) */
+            mc_budget(240);
+            if (mc.only < 0 && huge_probe_seconds() > 30.0) {
+                if (!said_slow)
+                    mc_cap("huge-slow: at the measured throughput (64 MiB probe) one operation over 2^32 octets takes more than 30 s: operations moving >= 2^32 octets not run");
+                said_slow = true;
+                mc_end(false, "huge-slow");
+                continue;
+            }
             mc_trans(1);
             for (size_t i = 0; i < TILE; ++i) {
                 huge_buf.phys[i] = (kind == 1) ? 0xee : tile_pattern(i, 1);
@@ -1814,9 +1877,9 @@ huge_family(void)
                 bool same = true;
                 for (size_t i = 0; i < TILE && same; ++i)
                     same = huge_buf.phys[i] == ((kind == 1) ? 0xee : tile_pattern(i, 1));
-                if (!refused_descriptor_ok(&b, &zeroed))
+                if (!refused_descriptor_ok(&b, &zeroed, huge_buf.virt, S))
                     mc_fail("C18/refusal-unchanged",
-                            "refused set-up left a changed descriptor that still describes memory: size=%#zx used=%#zx offset=%#zx",
+                            "refused set-up left a changed descriptor with marks out of order or describing memory that was not offered: size=%#zx used=%#zx offset=%#zx",
                             b.size, b.used, b.offset);
                 else if (!same)
                     mc_fail("C18/refusal-unchanged", "refused set-up changed buffer memory");
@@ -1909,6 +1972,210 @@ huge_family(void)
         }
 }
 
+/* ---- L: buffers, sources and destinations at every alignment -------------------
+ * "No operation touches memory outside the buffer's size octets": a buffer is a
+ * window of octets wherever the caller puts it -- at an odd offset inside a
+ * frame as well as on a word boundary.  The families above take their memory
+ * from malloc (16-aligned).  Here the buffer's memory starts at every address
+ * residue a = 0..7 (mod 8) and ends where its heap block ends (ASan red zone
+ * directly behind it, a canary octets in front of it); the source of an add and
+ * the destination of a consume / at-most are placed the same way at every
+ * residue, so an implementation that moves or wipes word-wise has every
+ * combination of leading and trailing partial words to get right.  Sizes reach
+ * past two words on either side (1..24, thorough 1..40). */
+static unsigned char *
+al_get(size_t a, size_t n, unsigned char **blk)
+{
+    *blk = mc_exact(a + n);
+    if (a + n > 0 && ((uintptr_t)*blk % 8u) != 0)
+        mc_broken("malloc returned a block that is not 8-aligned");
+    memset(*blk, 0xf5, a);
+    return *blk + a;
+}
+
+static bool
+al_front_kept(const unsigned char *blk, size_t a)
+{
+    for (size_t i = 0; i < a; ++i)
+        if (blk[i] != 0xf5)
+            return false;
+    return true;
+}
+
+enum { AL_CLEAR, AL_REWIND, AL_RESET, AL_REPEAT, AL_ADD, AL_CONSUME, AL_ATMOST, AL_NKIND };
+static const char *const AL_NAME[AL_NKIND] = { "clear", "rewind", "reset", "repeat", "add", "consume", "consume_at_most" };
+
+static void
+aligned_case(size_t S, size_t a, size_t used, size_t off, int kind, size_t oa)
+{
+    unsigned char *blk, *oblk = NULL, *operand = NULL;
+    unsigned char *mem = al_get(a, S, &blk);
+    unsigned char old[64];
+    for (size_t i = 0; i < S; ++i)
+        mem[i] = old[i] = (unsigned char)(0x41 + (i * 7) % 61);
+    const size_t rest = used - off;
+    const size_t len = kind == AL_ADD ? S - used : kind == AL_CONSUME ? rest : kind == AL_ATMOST ? rest + 1 : 0;
+    unsigned char src0[64];
+    if (kind >= AL_ADD) {
+        operand = al_get(oa, len, &oblk);
+        for (size_t i = 0; i < len; ++i)
+            operand[i] = src0[i] = (unsigned char)(kind == AL_ADD ? 0x91 + (i * 5) % 53 : 0xee);
+    }
+    ByteBuffer b;
+    memset(&b, 0, sizeof b);
+    const char *outcome = "setup-refused";
+    static bool said_unsupported;
+    if (byte_buffer_set(&b, mem, S, used, off) < 0) {
+        if (S <= MAXSIZE) {
+            mc_fail("C18/setup-accepts-valid", "byte_buffer_set refused a valid state of %zu octets at an address = %zu (mod 8)", S, a);
+        } else {
+            /* no range of sizes is promised (as in the medium-scope family) */
+            if (!said_unsupported)
+                mc_cap("byte_buffer_set refuses valid states of buffers of 9..40 octets: aligned-family cases of the refused sizes not decided");
+            said_unsupported = true;
+            outcome = "aligned-unsupported";
+        }
+        goto out;
+    }
+    if (memcmp(mem, old, used) != 0) {
+        mc_fail("C18/setup-accepts-valid", "set-up changed the octets it was told are filled");
+        goto out;
+    }
+    memcpy(old, mem, S); /* free room as set-up left it */
+    size_t m_used = used, m_off = off;
+    const char *cl = "C18/reset-clear-repeat";
+    mc_trans(1);
+    switch (kind) {
+    case AL_CLEAR:
+        byte_buffer_clear(&b);
+        m_used = m_off = 0;
+        outcome = "aligned-clear";
+        for (size_t i = 0; i < S; ++i)
+            if (mem[i] != 0) {
+                mc_fail("C18/clear-zeroes", "octet %zu is %02x after clear", i, mem[i]);
+                break;
+            }
+        break;
+    case AL_REWIND: {
+        cl = "C18/rewind-keeps-unread";
+        outcome = "aligned-rewind";
+        const int rc = byte_buffer_rewind(&b);
+        if (rc < 0)
+            mc_fail(cl, "rewind on a valid buffer returned %d", rc);
+        memmove(old, old + off, rest);
+        m_used = rest;
+        m_off = 0;
+        break;
+    }
+    case AL_RESET:
+        byte_buffer_reset(&b);
+        m_used = m_off = 0;
+        outcome = "aligned-reset-repeat";
+        break;
+    case AL_REPEAT:
+        byte_buffer_repeat(&b);
+        m_off = 0;
+        outcome = "aligned-reset-repeat";
+        break;
+    case AL_ADD: {
+        cl = "C18/add-appends";
+        outcome = "aligned-add";
+        const int rc = byte_buffer_add(&b, operand, len);
+        mc_log("add rc=%d", rc);
+        if (rc < 0)
+            mc_fail(cl, "add of %zu octets with %zu free refused rc=%d", len, S - used, rc);
+        else if (memcmp(operand, src0, len) != 0)
+            mc_fail(cl, "add changed its source");
+        memcpy(old + used, src0, len);
+        m_used = used + len;
+        break;
+    }
+    case AL_CONSUME: {
+        cl = "C18/consume-advances";
+        outcome = "aligned-consume";
+        const int rc = byte_buffer_consume(&b, operand, len);
+        mc_log("consume rc=%d", rc);
+        mc_log_hex("out", operand, len);
+        if (rc < 0)
+            mc_fail("C18/consume-oldest", "consume(%zu) with %zu unread refused rc=%d", len, rest, rc);
+        else if (memcmp(operand, old + off, len) != 0)
+            mc_fail("C18/consume-oldest", "consume(%zu) did not return the oldest unread octets", len);
+        m_off = off + len;
+        break;
+    }
+    case AL_ATMOST: {
+        cl = "C18/consume-advances";
+        outcome = "aligned-atmost";
+        const ssize_t rc = byte_buffer_consume_at_most(&b, operand, len);
+        mc_log("consume_at_most rc=%zd", rc);
+        mc_log_hex("out", operand, len);
+        if (rc != (ssize_t)rest)
+            mc_fail("C18/atmost-count", "consume_at_most(%zu) with %zu unread returned %zd", len, rest, rc);
+        else if (memcmp(operand, old + off, rest) != 0)
+            mc_fail("C18/atmost-oldest", "consume_at_most(%zu) did not return the oldest unread octets", len);
+        m_off = used;
+        break;
+    }
+    }
+    mc_log("after: size=%zu used=%zu offset=%zu", b.size, b.used, b.offset);
+    mc_log_hex("image", mem, S);
+    if (mc.cur_failed) {
+        /* first failing sentence is recorded */
+    } else if (b.data != mem || b.size != S) {
+        mc_fail("C18/geometry-unchanged", "data/size changed: size=%zu", b.size);
+    } else if (!(b.offset <= b.used && b.used <= b.size)) {
+        mc_fail("C18/invariant", "offset=%zu used=%zu size=%zu", b.offset, b.used, b.size);
+    } else if (b.used != m_used || b.offset != m_off) {
+        mc_fail(cl, "fields used=%zu offset=%zu, model used=%zu offset=%zu", b.used, b.offset, m_used, m_off);
+    } else if (memcmp(mem, old, m_used) != 0) {
+        mc_fail(cl, "filled region differs from the model's content");
+    } else if (!al_front_kept(blk, a) || (oblk != NULL && !al_front_kept(oblk, oa))) {
+        mc_fail("C18/memory-outside-untouched", "octets directly in front of the %s were changed",
+                al_front_kept(blk, a) ? "operand" : "buffer's memory");
+    }
+out:
+    free(blk);
+    free(oblk);
+    mc_end(kind != AL_RESET && kind != AL_REPEAT, outcome);
+}
+
+static void
+aligned_family(void)
+{
+    const size_t maxS = mc_thorough() ? 40 : 24;
+    for (size_t S = 1; S <= maxS; ++S)
+        for (size_t a = 0; a < 8; ++a) {
+            size_t uv[5], nu = 0;
+            const size_t ucand[5] = { 0, 1, S / 2, S - 1, S };
+            for (int i = 0; i < 5; ++i)
+                nu = (size_t)uniq_push(uv, (int)nu, 5, ucand[i]);
+            for (size_t ui = 0; ui < nu; ++ui) {
+                const size_t used = uv[ui];
+                size_t ov[5], no = 0;
+                const size_t ocand[5] = { 0, 1, used / 2, used ? used - 1 : 0, used };
+                for (int i = 0; i < 5; ++i)
+                    if (ocand[i] <= used)
+                        no = (size_t)uniq_push(ov, (int)no, 5, ocand[i]);
+                for (size_t oi = 0; oi < no; ++oi)
+                    for (int kind = 0; kind < AL_NKIND; ++kind)
+                        for (size_t oa = 0; oa < (kind >= AL_ADD ? 8u : 1u); ++oa) {
+                            const size_t off = ov[oi];
+                            if (kind == AL_ATMOST && used == off)
+                                continue; /* nothing unread: decided in the search */
+                            char od[96];
+                            od[0] = 0;
+                            if (kind >= AL_ADD)
+                                snprintf(od, sizeof od, "(%zu) operand at address = %zu (mod 8), ending at its block's end",
+                                         kind == AL_ADD ? S - used : kind == AL_CONSUME ? used - off : used - off + 1, oa);
+                            if (!mc_case("aligned size=%zu buffer at address = %zu (mod 8), ending at its block's end; state=(used=%zu,off=%zu) op=%s%s",
+                                         S, a, used, off, AL_NAME[kind], od))
+                                continue;
+                            aligned_case(S, a, used, off, kind, oa);
+                        }
+            }
+        }
+}
+
 int
 main(int argc, char **argv)
 {
@@ -1935,7 +2202,9 @@ main(int argc, char **argv)
     big_family();
     mc_partition(-1, 105);
     huge_family();
-    char bound[1800];
+    mc_partition(-1, 106);
+    aligned_family();
+    char bound[2200];
     snprintf(bound, sizeof bound,
              "sizes 1..%zu, octets {00,a1,b2}, all operations, operand lengths 0..size+1, to fixpoint; "
              "far operands 2^{8,15,16,31,32,3*2^32,48,63,64}-/+(size+1) in every reached state (consume/at-most: up to 3*2^32, into a destination of that length); "
@@ -1943,8 +2212,10 @@ main(int argc, char **argv)
              "sizes 2^{%s}-1..+1 on exact heap blocks x boundary (used,offset) x boundary/far operands, all operations; "
              "sizes 2^31-1..2^31+1, 2^32-1..2^32+1, 2^32+7 on a lazily backed mapping x boundary (used,offset) x operations moving <= 8 octets or refusing (no clear), set-up matrix at that scale; "
              "sizes 2^32+{%s} of real memory (a 4 MiB file tiled over the range; source and destination likewise) x {clear, add(size) into the empty buffer, consume(rest), consume_at_most(rest), consume_at_most(rest+1) from the full buffer at offset 3}; "
-             "every operation with a side-effect buffer argument in every (used,offset) of sizes 1..%d; operands touching the buffer's memory (front/behind, gap 0/1) for every state and length of sizes 1..%zu",
-             maxsize, mc_thorough() ? "7,8,15,16" : "8,16", mc_thorough() ? "1,4097,2^22-1" : "4097", mc_thorough() ? 5 : 3, maxsize);
+             "every operation with a side-effect buffer argument in every (used,offset) of sizes 1..%d; operands touching the buffer's memory (front/behind, gap 0/1) for every state and length of sizes 1..%zu; "
+             "sizes 1..%d at address residues 0..7 (mod 8) ending at the block end x boundary (used,offset) x {clear, rewind, reset, repeat, add(all that fits), consume(unread), consume_at_most(unread+1)} x operand residues 0..7",
+             maxsize, mc_thorough() ? "7,8,15,16" : "8,16", mc_thorough() ? "1,4097,2^22-1" : "4097", mc_thorough() ? 5 : 3, maxsize,
+             mc_thorough() ? 40 : 24);
     mc_finish(true, bound);
     return 0;
 }
